@@ -490,6 +490,241 @@ fn case<S: ShortGroupSignatureScheme>(v: &Value) -> Value {
             }
             json!({"r":"ok","world":"ok","create":"ok","verify":base,"json_roundtrip":can_roundtrip,"tamper":results,"n_leaves":hexleaves.len()})
         }
+        "leak" => {
+            // public-data distinguishers (C07): given the presentation, the schema and a candidate value m' for an
+            // undisclosed claim, test algebraic relations among transmitted values that hold exactly for the signed value
+            use credx::knox::short_group_sig_core::short_group_traits::ProofOfSignatureKnowledge;
+            let c = p.challenge;
+            let mut reports = vec![];
+            for st in w.statements.iter() {
+                let (sid, rid, claim, gens, leaves, byte_ct): (String, String, usize, Vec<(&str, G1Projective)>, Vec<(&str, G1Projective)>, Option<(Vec<G1Projective>, Vec<Scalar>)>) = match st {
+                    Statements::Commitment(s) => match p.proofs.get(&s.id) {
+                        Some(PresentationProofs::Commitment(cp)) => (s.id.clone(), s.reference_id.clone(), s.claim,
+                            vec![("G", G1Projective::GENERATOR), ("gm", s.message_generator), ("gb", s.blinder_generator)],
+                            vec![("commitment", cp.commitment)], None),
+                        _ => continue,
+                    },
+                    Statements::VerifiableEncryption(s) => match p.proofs.get(&s.id) {
+                        Some(PresentationProofs::VerifiableEncryption(vp)) => (s.id.clone(), s.reference_id.clone(), s.claim,
+                            vec![("G", G1Projective::GENERATOR), ("gm", s.message_generator), ("ek", s.encryption_key.0)],
+                            vec![("c1", vp.c1), ("c2", vp.c2)],
+                            vp.decryptable_scalar_proof.as_ref().map(|d| (d.byte_ciphertext.c1.to_vec(), d.byte_proofs.iter().map(|b| b.message).collect()))),
+                        _ => continue,
+                    },
+                    Statements::VerifiableEncryptionDecryption(s) => match p.proofs.get(&s.id) {
+                        Some(PresentationProofs::VerifiableEncryptionDecryption(vp)) => (s.id.clone(), s.reference_id.clone(), s.claim,
+                            vec![("G", G1Projective::GENERATOR), ("gm", s.message_generator), ("ek", s.encryption_key.0)],
+                            vec![("c1", vp.c1), ("c2", vp.c2)],
+                            Some((vp.byte_ciphertext.c1.to_vec(), vp.byte_proofs.iter().map(|b| b.message).collect()))),
+                        _ => continue,
+                    },
+                    _ => continue,
+                };
+                // the referenced claim's Schnorr response, as any verifier extracts it
+                let (sp, ss) = match (p.proofs.get(&rid), w.schema.statements.get(&rid)) {
+                    (Some(PresentationProofs::Signature(sp)), Some(Statements::Signature(ss))) => (sp, ss),
+                    _ => continue,
+                };
+                let disc: Vec<(usize, Scalar)> = sp.disclosed_messages.iter().map(|(i, s)| (*i, *s)).collect();
+                let hid = match sp.pok.get_hidden_message_proofs(&ss.issuer.verifying_key, &disc) {
+                    Ok(h) => h,
+                    Err(_) => continue,
+                };
+                let mp = match hid.get(&claim) {
+                    Some(m) => *m,
+                    None => continue,
+                };
+                let ci = w.sig_cred[&rid];
+                let m_true = w.claims[ci][claim].to_scalar();
+                let mut cands = vec![m_true, m_true + Scalar::ONE, m_true - Scalar::ONE, Scalar::from(rng.gen::<u64>())];
+                for (j, cl) in w.claims[ci].iter().enumerate() {
+                    if j != claim {
+                        cands.push(cl.to_scalar());
+                    }
+                }
+                // generic two-term catalogue: L == m'*Q1 + n'*Q2 with n' = mp - c*m', Q1, Q2 public generators or zero
+                let mut gz = gens.clone();
+                gz.push(("0", G1Projective::IDENTITY));
+                let mut tests = vec![];
+                for (ln, l) in leaves.iter() {
+                    for (q1n, q1) in gz.iter() {
+                        for (q2n, q2) in gz.iter() {
+                            if *q1n == "0" && *q2n == "0" {
+                                continue;
+                            }
+                            let hits: Vec<bool> = cands.iter().map(|m| *l == *q1 * *m + *q2 * (mp - c * *m)).collect();
+                            if hits.iter().any(|h| *h) {
+                                tests.push(json!({"test": format!("{ln} == m'*{q1n} + (resp - c*m')*{q2n}"), "true_value": hits[0], "decoys": hits[1..].iter().filter(|h| **h).count()}));
+                            }
+                        }
+                    }
+                }
+                // per-byte dictionary test on the byte ciphertexts: G*resp_i - c1_i == c*byte*G
+                let mut bytes_recovered = None;
+                if let Some((c1s, resps)) = byte_ct {
+                    let mut rec = vec![];
+                    for (c1i, ri) in c1s.iter().zip(resps.iter()) {
+                        let lhs = G1Projective::GENERATOR * *ri - *c1i;
+                        let b = (0u16..256).find(|b| lhs == G1Projective::GENERATOR * (c * Scalar::from(*b)));
+                        rec.push(b);
+                    }
+                    let all: Option<Vec<u8>> = rec.iter().map(|x| x.map(|y| y as u8)).collect();
+                    bytes_recovered = Some(match all {
+                        Some(b) => json!({"all": true, "equals_signed_scalar": b == m_true.to_be_bytes().to_vec()}),
+                        None => json!({"all": false, "some": rec.iter().filter(|x| x.is_some()).count()}),
+                    });
+                }
+                reports.push(json!({"stmt": sid, "kind": kind_name(st), "tests": tests, "bytes_recovered": bytes_recovered}));
+            }
+            // two hidden claims of one credential blinded with one nonce: (s_i - s_j) == c*(m_i - m_j)
+            for (sid, ci) in w.sig_cred.iter() {
+                if let (Some(PresentationProofs::Signature(sp)), Some(Statements::Signature(ss))) = (p.proofs.get(sid), w.schema.statements.get(sid)) {
+                    let disc: Vec<(usize, Scalar)> = sp.disclosed_messages.iter().map(|(i, s)| (*i, *s)).collect();
+                    if let Ok(hid) = sp.pok.get_hidden_message_proofs(&ss.issuer.verifying_key, &disc) {
+                        let hv: Vec<(usize, Scalar)> = hid.into_iter().collect();
+                        let mut hits = vec![];
+                        for a in 0..hv.len() {
+                            for b in (a + 1)..hv.len() {
+                                let (i, si) = hv[a];
+                                let (j, sj) = hv[b];
+                                let (mi, mj) = (w.claims[*ci][i].to_scalar(), w.claims[*ci][j].to_scalar());
+                                if si - sj == c * (mi - mj) {
+                                    hits.push(json!([i, j]));
+                                }
+                            }
+                        }
+                        if !hits.is_empty() {
+                            reports.push(json!({"stmt": sid, "kind": "sig", "tests": [{"test": "(resp_i - resp_j) == c*(m_i - m_j): two hidden claims share one nonce", "true_value": true, "decoys": 0, "pairs": hits}], "bytes_recovered": null}));
+                        }
+                    }
+                }
+            }
+            json!({"r":"ok","world":"ok","create":"ok","verify":base,"leak":reports})
+        }
+        "link" => {
+            // linking tests (C12): P1, P2 from the SAME credentials (fresh nonces), P3 from other credentials of the
+            // same issuers under the same schema; a relation that holds for (P1,P2) but not for (P1,P3) links
+            use credx::knox::short_group_sig_core::short_group_traits::ProofOfSignatureKnowledge;
+            use serde_cbor::Value as CV;
+            fn cl(v: &CV, path: &mut Vec<String>, out: &mut Vec<(String, Vec<u8>)>) {
+                match v {
+                    CV::Array(a) => {
+                        let bytes: Option<Vec<u8>> = a.iter().map(|x| if let CV::Integer(i) = x { if (0..256).contains(i) { Some(*i as u8) } else { None } } else { None }).collect();
+                        match bytes {
+                            Some(b) if b.len() == 32 || b.len() == 48 || b.len() == 96 => out.push((path.join("/"), b)),
+                            _ => for (i, x) in a.iter().enumerate() { path.push(i.to_string()); cl(x, path, out); path.pop(); }
+                        }
+                    }
+                    CV::Map(m) => for (k, x) in m.iter() {
+                        let ks = match k { CV::Text(t) => t.clone(), other => format!("{other:?}") };
+                        if ks == "disclosed_messages" { continue; }
+                        path.push(ks); cl(x, path, out); path.pop();
+                    },
+                    _ => {}
+                }
+            }
+            let alt = &v["action"]["alt"];
+            let mut creds3 = w.credentials.clone();
+            // bundles of all credentials were consumed into w.credentials keyed by statement; rebuild alt from w.claims via a fresh signature
+            let mut claims3: IndexMap<String, Vec<ClaimData>> = IndexMap::new();
+            let mut issuers = w.issuers;
+            for (sid, ci) in w.sig_cred.iter() {
+                if let Some(aci) = alt[sid].as_u64() {
+                    let aci = aci as usize;
+                    let b = issuers[w.cred_issuer[aci]].1.sign_credential(&w.claims[aci]).expect("re-sign");
+                    creds3.insert(sid.clone(), b.credential.into());
+                    claims3.insert(sid.clone(), w.claims[aci].clone());
+                } else {
+                    claims3.insert(sid.clone(), w.claims[*ci].clone());
+                }
+            }
+            let nonce2 = [w.nonce.clone(), vec![2u8]].concat();
+            let same_nonce = v["action"]["same_nonce"].as_bool().unwrap_or(false);
+            let p2 = match Presentation::create(&w.credentials, &w.schema, if same_nonce { &w.nonce } else { &nonce2 }) { Ok(x) => x, Err(e) => return json!({"r":"ok","create2":format!("{e:?}")}) };
+            let p3 = match Presentation::create(&creds3, &w.schema, &nonce2) { Ok(x) => x, Err(e) => return json!({"r":"ok","create3":format!("{e:?}")}) };
+            let leaves_of = |q: &Presentation<S>| -> Vec<(String, Vec<u8>)> {
+                let t = serde_cbor::value::to_value(q).unwrap();
+                let mut o = vec![];
+                cl(&t, &mut vec![], &mut o);
+                o
+            };
+            let (l1, l2, l3) = (leaves_of(&p), leaves_of(&p2), leaves_of(&p3));
+            let mut links = vec![];
+            // (1) equal leaves at equal positions
+            for (path, b1) in l1.iter() {
+                let e12 = l2.iter().any(|(p2, b2)| p2 == path && b2 == b1);
+                let e13 = l3.iter().any(|(p3, b3)| p3 == path && b3 == b1);
+                if e12 && !e13 {
+                    links.push(json!({"test": "leaf-equality", "path": path}));
+                }
+            }
+            // (2) a nonce reused across presentations: (s1 - s2) == (c1 - c2)*m
+            let resp_of = |q: &Presentation<S>, sid: &String| -> Option<std::collections::BTreeMap<usize, Scalar>> {
+                if let (Some(PresentationProofs::Signature(sp)), Some(Statements::Signature(ss))) = (q.proofs.get(sid), w.schema.statements.get(sid)) {
+                    let disc: Vec<(usize, Scalar)> = sp.disclosed_messages.iter().map(|(i, s)| (*i, *s)).collect();
+                    sp.pok.get_hidden_message_proofs(&ss.issuer.verifying_key, &disc).ok()
+                } else { None }
+            };
+            for (sid, ci) in w.sig_cred.iter() {
+                if let (Some(h1), Some(h2)) = (resp_of(&p, sid), resp_of(&p2, sid)) {
+                    for (i, s1) in h1.iter() {
+                        if let Some(s2) = h2.get(i) {
+                            let m = w.claims[*ci][*i].to_scalar();
+                            if *s1 - *s2 == (p.challenge - p2.challenge) * m && p.challenge != p2.challenge {
+                                links.push(json!({"test": "cross-presentation nonce reuse", "stmt": sid, "claim": i}));
+                            }
+                        }
+                    }
+                }
+            }
+            // (2b) publicly computable invariants of one presentation that repeat across presentations of the same
+            // credential: (s_i - s_j)/c for every pair of hidden claims
+            for (sid, _) in w.sig_cred.iter() {
+                if let (Some(h1), Some(h2), Some(h3)) = (resp_of(&p, sid), resp_of(&p2, sid), resp_of(&p3, sid)) {
+                    let inv = |h: &std::collections::BTreeMap<usize, Scalar>, c: Scalar, i: usize, j: usize| -> Option<Scalar> {
+                        let ci = Option::<Scalar>::from(c.invert())?;
+                        Some((*h.get(&i)? - *h.get(&j)?) * ci)
+                    };
+                    let keys: Vec<usize> = h1.keys().cloned().collect();
+                    for a in 0..keys.len() {
+                        for b in (a + 1)..keys.len() {
+                            let (i, j) = (keys[a], keys[b]);
+                            if let (Some(t1), Some(t2)) = (inv(&h1, p.challenge, i, j), inv(&h2, p2.challenge, i, j)) {
+                                if t1 == t2 && inv(&h3, p3.challenge, i, j) != Some(t1) {
+                                    links.push(json!({"test": "(resp_i - resp_j)/challenge repeats across presentations", "stmt": sid, "claims": [i, j]}));
+                                }
+                            }
+                        }
+                    }
+                }
+            }
+            // (3) pairing cross-ratio e(P_a, Q_b) == e(P_b, Q_a) for G1 leaves P and G2 leaves Q at equal positions
+            let g1 = |b: &Vec<u8>| -> Option<G1Affine> { let a: [u8; 48] = b.clone().try_into().ok()?; Option::<G1Affine>::from(G1Affine::from_compressed(&a)) };
+            let g2 = |b: &Vec<u8>| -> Option<G2Affine> { let a: [u8; 96] = b.clone().try_into().ok()?; Option::<G2Affine>::from(G2Affine::from_compressed(&a)) };
+            let ratio = |la: &Vec<(String, Vec<u8>)>, lb: &Vec<(String, Vec<u8>)>, pp: &String, qp: &String| -> Option<bool> {
+                let pa = g1(&la.iter().find(|(x, b)| x == pp && b.len() == 48)?.1)?;
+                let pb = g1(&lb.iter().find(|(x, b)| x == pp && b.len() == 48)?.1)?;
+                let qa = g2(&la.iter().find(|(x, b)| x == qp && b.len() == 96)?.1)?;
+                let qb = g2(&lb.iter().find(|(x, b)| x == qp && b.len() == 96)?.1)?;
+                if bool::from(pa.is_identity()) || bool::from(pb.is_identity()) || bool::from(qa.is_identity()) || bool::from(qb.is_identity()) { return None; }
+                Some(pairing(&pa, &qb) == pairing(&pb, &qa))
+            };
+            let p_paths: Vec<String> = l1.iter().filter(|(_, b)| b.len() == 48).map(|(x, _)| x.clone()).collect();
+            let q_paths: Vec<String> = l1.iter().filter(|(_, b)| b.len() == 96).map(|(x, _)| x.clone()).collect();
+            let mut n_ratio = 0;
+            for pp in p_paths.iter().take(40) {
+                for qp in q_paths.iter().take(6) {
+                    if let Some(true) = ratio(&l1, &l2, pp, qp) {
+                        n_ratio += 1;
+                        if ratio(&l1, &l3, pp, qp) != Some(true) {
+                            links.push(json!({"test": "pairing cross-ratio", "g1": pp, "g2": qp}));
+                        }
+                    }
+                }
+            }
+            json!({"r":"ok","world":"ok","create":"ok","verify":base,"verify2":verdict(&p2, &w.schema, if same_nonce { &w.nonce } else { &nonce2 }),"links":links,
+                   "n_leaves": l1.len(), "n_g2": q_paths.len(), "ratio_hits_same": n_ratio})
+        }
         "ctx" => {
             let max = v["action"]["max"].as_u64().unwrap_or(1000) as usize;
             let muts = context_mutations::<S>(&w, &mut rng);
